@@ -1,6 +1,7 @@
 package rules
 
 import (
+	"os"
 	"fmt"
 	"go/token"
 	"go/types"
@@ -49,7 +50,7 @@ func findGateLoop(fn *ssa.Function) *gateLoop {
 		if !ok || ir.CallName(c.Common()) != "builtin.len" {
 			continue
 		}
-		body := ir.Pt{B: ii.If.Block().Succs[ii.EdgeWhen(true)], I: 0}
+		body := ir.EdgePt(ii.If.Block(), ii.EdgeWhen(true))
 		res := ir.Reach([]ir.Pt{body}, ir.Opts{Stop: func(in ssa.Instruction) bool { return in == ssa.Instruction(ii.If) }})
 		hasNorm := false
 		itemPath := ""
@@ -135,6 +136,7 @@ func ruleScopeGate(r *core.Reporter) {
 	qInc := add("include filters (when configured)")
 	var incCfgIfs []ir.IfInfo
 	var incHost, incStr *ir.IfInfo
+	foldedRegexScan := false
 	for i := range ifs {
 		ii := ifs[i]
 		a := ii.Atom
@@ -183,6 +185,16 @@ func ruleScopeGate(r *core.Reporter) {
 			qExR.pass = append(qExR.pass, e(false))
 			qExR.fail = append(qExR.fail, e(true))
 			qExR.found++
+		}
+		// the helper folded into the loop by hand: a scan of config.ExclusionRegexes matching the item's URL —
+		// a match is the failing side, the natural end of the scan the passing one
+		if c := ir.BoolCallAtom(a, "(*regexp.Regexp).MatchString"); c != nil && len(c.Call.Args) == 2 && ir.Path(c.Call.Args[1]) == item+".GetURL().String()" && strings.Contains(ir.Path(c.Call.Args[0]), "config.Get().ExclusionRegexes") {
+			if l, okl := loopAround(fn, ii.If); okl {
+				qExR.pass = append(qExR.pass, edge{l.If.Block(), l.EdgeWhen(false)})
+				qExR.fail = append(qExR.fail, e(true))
+				qExR.found++
+				foldedRegexScan = true
+			}
 		}
 	}
 	// include: "not configured" escape = false edges of the len tests from which no include predicate is reachable in the iteration
@@ -243,13 +255,23 @@ func ruleScopeGate(r *core.Reporter) {
 		// (1) skip check: iteration end reachable without rejecting and without crossing a pass edge
 		res := ir.Reach([]ir.Pt{g.bodyPt}, ir.Opts{Stop: func(in ssa.Instruction) bool { return in == hdrIf || reject(in) }, EdgeOK: cut(q.pass)})
 		if res.Stopped[hdrIf] {
+			if os.Getenv("ZC_DEBUG_GATE") != "" {
+				for in := range res.Reached {
+					if ifi, ok := in.(*ssa.If); ok {
+						fmt.Fprintf(os.Stderr, "GATE %s reached if %s cond=%s\n", q.name, p.InstrPos(ifi), ir.Path(ifi.Cond))
+					}
+				}
+				for _, e := range q.pass {
+					fmt.Fprintf(os.Stderr, "GATE %s pass edge block %d succ %d\n", q.name, e.b.Index, e.s)
+				}
+			}
 			r.Violated(key, p.InstrPos(g.head.If), "an item can finish its gate iteration un-rejected without having passed %s (a path skips the test: early continue, cached verdict, or a different subject)", q.name)
 			continue
 		}
 		// (2) fail sides reach only rejections
 		bad := false
 		for _, fe := range q.fail {
-			start := ir.Pt{B: fe.b.Succs[fe.s], I: 0}
+			start := ir.EdgePt(fe.b, fe.s)
 			rs := ir.Reach([]ir.Pt{start}, ir.Opts{Stop: func(in ssa.Instruction) bool { return in == hdrIf || reject(in) }})
 			if rs.Stopped[hdrIf] {
 				bad = true
@@ -286,7 +308,9 @@ func ruleScopeGate(r *core.Reporter) {
 	}
 	// matchRegexExclusion consults every configured regex on the item's canonical URL
 	mre := p.Func(rel(pkgPre), "matchRegexExclusion")
-	if mre == nil {
+	if mre == nil && foldedRegexScan {
+		r.Held("matchRegexExclusion", 1, "folded into the gate loop: every configured regex is matched against the item's canonical URL")
+	} else if mre == nil {
 		r.Undecided("matchRegexExclusion", "", "anchor not found")
 	} else {
 		r.Analysed(mre)
@@ -301,7 +325,7 @@ func ruleScopeGate(r *core.Reporter) {
 		if ok {
 			for _, ii := range ir.Ifs(mre) {
 				if ii.Atom.V == ssa.Value(ms) {
-					start := ir.Pt{B: ii.If.Block().Succs[ii.EdgeWhen(true)], I: 0}
+					start := ir.EdgePt(ii.If.Block(), ii.EdgeWhen(true))
 					trueOK = true
 					rres := ir.Reach([]ir.Pt{start}, ir.Opts{Stop: func(x ssa.Instruction) bool { return x == ssa.Instruction(ii.If) }})
 					for in := range rres.Reached {
@@ -403,7 +427,7 @@ func ruleRequestAfterGate(r *core.Reporter) {
 		}
 	}
 	// seencheck before the request loop: DedupeItems and a SeencheckItem on every path from the gate loop exit to SetRequest
-	exit := ir.Pt{B: g.head.If.Block().Succs[g.head.EdgeWhen(false)], I: 0}
+	exit := ir.EdgePt(g.head.If.Block(), g.head.EdgeWhen(false))
 	dedupe := func(in ssa.Instruction) bool { return ir.IsPlainCallTo(in, "(*"+pkgModels+".Item).DedupeItems") }
 	seen := func(in ssa.Instruction) bool {
 		return ir.IsPlainCallTo(in, pkgSeen+".SeencheckItem", pkgHQ+".SeencheckItem")
@@ -433,7 +457,7 @@ func ruleRequestAfterGate(r *core.Reporter) {
 			continue
 		}
 		// on the != Fresh edge an in-place delete (append of two slices of the same slice) happens
-		start := ir.Pt{B: ii.If.Block().Succs[ii.EdgeWhen(false)], I: 0}
+		start := ir.EdgePt(ii.If.Block(), ii.EdgeWhen(false))
 		rs := ir.Reach([]ir.Pt{start}, ir.Opts{Stop: func(in ssa.Instruction) bool { return in == ssa.Instruction(ii.If) }})
 		for in := range rs.Reached {
 			if cc, isC := in.(*ssa.Call); isC && ir.CallName(cc.Common()) == "builtin.append" {
@@ -466,13 +490,13 @@ func ruleRequestAfterGate(r *core.Reporter) {
 		// forward filter: on the == Fresh edge the item is appended to the list that is used afterwards
 		for _, ii := range ir.Ifs(fn) {
 			if eq, ok := isFreshCmp(ii.If.Cond); ok {
-				start := ir.Pt{B: ii.If.Block().Succs[ii.EdgeWhen(eq == ii.Pol)], I: 0}
+				start := ir.EdgePt(ii.If.Block(), ii.EdgeWhen(eq == ii.Pol))
 				_ = start
 				keepEdge := 0
 				if !eq {
 					keepEdge = 1
 				}
-				st := ir.Pt{B: ii.If.Block().Succs[keepEdge], I: 0}
+				st := ir.EdgePt(ii.If.Block(), keepEdge)
 				rs := ir.Reach([]ir.Pt{st}, ir.Opts{Stop: func(in ssa.Instruction) bool { return in == ssa.Instruction(ii.If) }})
 				for in := range rs.Reached {
 					if cc, isC := in.(*ssa.Call); isC && ir.CallName(cc.Common()) == "builtin.append" && strings.HasSuffix(cc.Type().String(), "models.Item") {
